@@ -541,57 +541,116 @@ theorem sigL_popTrailingWs (ks : List FNode) : sigL (popTrailingWs ks) = sigL ks
 
 theorem sigL_stripwsDefault (ks : List FNode) : sigL (stripwsDefault ks) = sigL ks := sigL_stripwsDefaultGo ks false true
 
+/-! ### deleting elements that satisfy `p` (the two guarded loops of `_stripws_parenthesis` only do that) -/
+
+/-- `l'` arises from `l` by deleting some elements that satisfy `p` -/
+inductive Del {α : Type} (p : α → Bool) : List α → List α → Prop
+  | nil : Del p [] []
+  | keep {x : α} {l' l : List α} : Del p l' l → Del p (x :: l') (x :: l)
+  | drop {x : α} {l' l : List α} : p x = true → Del p l' l → Del p l' (x :: l)
+
+theorem Del.refl {α : Type} (p : α → Bool) : ∀ (l : List α), Del p l l
+  | [] => .nil
+  | _ :: l => .keep (Del.refl p l)
+
+theorem Del.append {α : Type} {p : α → Bool} {a' a b' b : List α} (ha : Del p a' a) (hb : Del p b' b) :
+    Del p (a' ++ b') (a ++ b) := by
+  induction ha with
+  | nil => exact hb
+  | keep _ ih => exact .keep ih
+  | drop hx _ ih => exact .drop hx ih
+
+theorem Del.reverse {α : Type} {p : α → Bool} {l' l : List α} (h : Del p l' l) : Del p l'.reverse l.reverse := by
+  induction h with
+  | nil => exact .nil
+  | keep _ ih => simp only [List.reverse_cons]; exact Del.append ih (.keep .nil)
+  | drop hx _ ih =>
+    simp only [List.reverse_cons]
+    have := Del.append ih (Del.drop hx Del.nil)
+    simpa using this
+
+theorem Del.trans {α : Type} {p : α → Bool} {a b c : List α} (h1 : Del p a b) (h2 : Del p b c) : Del p a c := by
+  induction h2 generalizing a with
+  | nil => exact h1
+  | keep _ ih =>
+    cases h1 with
+    | keep h => exact .keep (ih h)
+    | drop hx h => exact .drop hx (ih h)
+  | drop hx _ ih => exact .drop hx (ih h1)
+
+theorem Del.mem {α : Type} {p : α → Bool} {l' l : List α} (h : Del p l' l) : ∀ x ∈ l', x ∈ l := by
+  induction h with
+  | nil => intro x hx; exact hx
+  | keep _ ih =>
+    intro x hx
+    rcases List.mem_cons.mp hx with rfl | h2
+    · exact List.mem_cons_self
+    · exact List.mem_cons_of_mem _ (ih x h2)
+  | drop _ _ ih => intro x hx; exact List.mem_cons_of_mem _ (ih x hx)
+
+theorem popLeadBy_del {α : Type} (p : α → Bool) : ∀ (l : List α), Del p (popLeadBy p l) l
+  | [] => .nil
+  | [b] => by simp only [popLeadBy]; exact Del.refl p _
+  | b :: c :: r => by
+    simp only [popLeadBy]
+    split
+    · rename_i hb; exact .drop hb (popLeadBy_del p (c :: r))
+    · exact Del.refl p _
+
+theorem trimAfterFirstBy_del {α : Type} (p : α → Bool) (l : List α) : Del p (trimAfterFirstBy p l) l := by
+  cases l with
+  | nil => exact .nil
+  | cons a tl => exact .keep (popLeadBy_del p tl)
+
+theorem trimBeforeLastBy_del {α : Type} (p : α → Bool) (l : List α) : Del p (trimBeforeLastBy p l) l := by
+  unfold trimBeforeLastBy
+  have := (trimAfterFirstBy_del p l.reverse).reverse
+  simpa using this
+
+theorem trimInsideBy_del {α : Type} (p : α → Bool) (l : List α) : Del p (trimInsideBy p l) l :=
+  (trimBeforeLastBy_del p _).trans (trimAfterFirstBy_del p l)
+
+
+theorem sigL_of_del {l' l : List FNode} (h : Del FNode.isWhitespace l' l) : sigL l' = sigL l := by
+  induction h with
+  | nil => rfl
+  | keep _ ih => rw [sigL_cons, sigL_cons, ih]
+  | drop hx _ ih => rw [sigL_cons, sig_ws _ hx, ih]; rfl
+
+/-- what `trimPenGroup` does when it succeeds: nothing, or it trims the trailing whitespace of the last-but-one child's children -/
+theorem trimPenGroup_ok (l l3 : List FNode) (h : trimPenGroup l = .ok l3) :
+    l3 = l ∨ ∃ (revInit : List FNode) (last : FNode) (c : Cls) (cv : Text) (gks : List FNode) (g0 : FNode) (grest : List FNode),
+      l = revInit.reverse ++ [.grp c cv gks, last] ∧
+      dropTrailingWs gks = g0 :: grest ∧ l3 = revInit.reverse ++ [.grp c cv (g0 :: grest), last] := by
+  unfold trimPenGroup at h
+  split at h
+  · rename_i last c cv gks revInit hr
+    split at h
+    · cases h
+    · rename_i g0 grest hg
+      simp only [Except.ok.injEq] at h
+      right
+      refine ⟨revInit, last, c, cv, gks, g0, grest, ?_, hg, h.symm⟩
+      have := congrArg List.reverse hr
+      simpa using this
+  · simp only [Except.ok.injEq] at h
+    exact Or.inl h.symm
+
+theorem sigL_trimPenGroup (l l3 : List FNode) (h : trimPenGroup l = .ok l3) : sigL l3 = sigL l := by
+  rcases trimPenGroup_ok l l3 h with rfl | ⟨revInit, last, c, cv, gks, g0, grest, hl, hg, hl3⟩
+  · rfl
+  · have hg' : sigToks (FNode.grp c cv (g0 :: grest)).leaves = sigToks (FNode.grp c cv gks).leaves := by
+      show sigL (g0 :: grest) = sigL gks
+      rw [← hg, sigL_dropTrailingWs]
+    rw [hl, hl3, sigL_append, sigL_append, sigL_cons, sigL_cons (FNode.grp c cv gks), hg']
+
 theorem sigL_stripwsParenthesis (ks ks' : List FNode) (h : stripwsParenthesis ks = .ok ks') : sigL ks' = sigL ks := by
   unfold stripwsParenthesis at h
-  cases ks with
-  | nil => simp at h
-  | cons first tl =>
-    simp only at h
-    cases hdw : tl.dropWhile FNode.isWhitespace with
-    | nil => rw [hdw] at h; simp at h
-    | cons t1 tl1 =>
-      rw [hdw] at h
-      simp only at h
-      have hks : sigL (first :: tl) = sigL (first :: t1 :: tl1) := by
-        rw [sigL_cons, sigL_cons, ← hdw, sigL_dropWhile_ws]
-      -- split off the last element
-      obtain ⟨ys, l', hys⟩ : ∃ ys l', t1 :: tl1 = ys ++ [l'] := by
-        have hne : (t1 :: tl1) ≠ [] := by simp
-        exact ⟨(t1 :: tl1).dropLast, (t1 :: tl1).getLast hne, (List.dropLast_concat_getLast hne).symm⟩
-      have hlast : (t1 :: tl1).getLast?.getD t1 = l' := by rw [hys]; simp
-      have hinit : (first :: t1 :: tl1).dropLast = first :: ys := by
-        rw [hys]
-        cases ys with
-        | nil => simp
-        | cons y ys' => simp [List.dropLast]
-      rw [hlast, hinit] at h
-      have hall : sigL (first :: t1 :: tl1) = sigL (first :: ys) ++ sigToks l'.leaves := by
-        rw [hys, sigL_cons, sigL_append, sigL_singleton, sigL_cons, List.append_assoc]
-      cases hrev : (dropTrailingWs (first :: ys)).reverse with
-      | nil => rw [hrev] at h; simp at h
-      | cons pen revInit =>
-        rw [hrev] at h
-        simp only at h
-        have hdt : dropTrailingWs (first :: ys) = revInit.reverse ++ [pen] := by
-          have := congrArg List.reverse hrev
-          simpa using this
-        have hinit2 : sigL (first :: ys) = sigL revInit.reverse ++ sigToks pen.leaves := by
-          rw [← sigL_dropTrailingWs, hdt, sigL_append, sigL_singleton]
-        cases pen with
-        | tok tt v =>
-          simp only [Except.ok.injEq] at h
-          rw [← h, sigL_stripwsDefault, sigL_append, sigL_cons, sigL_singleton, hks, hall, hinit2, List.append_assoc]
-        | grp c cv gks =>
-          simp only at h
-          cases hg : dropTrailingWs gks with
-          | nil => rw [hg] at h; simp at h
-          | cons g0 grest =>
-            rw [hg] at h
-            simp only [Except.ok.injEq] at h
-            have hgs : sigToks (FNode.grp c cv (g0 :: grest)).leaves = sigToks (FNode.grp c cv gks).leaves := by
-              show sigL (g0 :: grest) = sigL gks
-              rw [← hg, sigL_dropTrailingWs]
-            rw [← h, sigL_stripwsDefault, sigL_append, sigL_cons, sigL_singleton, hgs, hks, hall, hinit2, List.append_assoc]
+  split at h
+  · cases h
+  · rename_i l hl
+    simp only [Except.ok.injEq] at h
+    rw [← h, sigL_stripwsDefault, sigL_trimPenGroup _ _ hl, sigL_of_del (trimInsideBy_del _ ks)]
 
 theorem sigL_stripwsLevel (d : Nat) (c : Cls) (ks ks' : List FNode) (h : stripwsLevel d c ks = .ok ks') : sigL ks' = sigL ks := by
   unfold stripwsLevel at h
